@@ -238,3 +238,15 @@ package frame
 //@   ensures  [seq-refused] logLen() == 0 ==> err != nil && w.nextSeqNumber == old(w.nextSeqNumber)
 //@   ensures  [v1-big-id] !SpecIsV2(fr) && msg0 != nil && msg0.GetID() > 255 ==> err != nil && logLen() == 0
 //@   modifies w.bw[:], w.nextSeqNumber, ghost:log, *fr
+
+// ---------------------------------------------------------------- routing lemma (C08, no dialect)
+
+//@ lemma lemmaForwardRaw
+//@   let P0 = old(streamPos(r.BufByteReader))
+//@   requires r != nil && r.BufByteReader != nil && r.DialectRW == nil && r.InKey == nil
+//@   requires w != nil && w.ByteWriter != nil && len(w.bw) == 512
+//@   ensures  [forwarded-bytes-are-the-received-bytes] rerr == nil ==> logLen() == 1 && logN(0) == specFrameSize(r.BufByteReader, P0) &&
+//@              (forall j int :: 0 <= j && j < logN(0) ==> logByte(0, j) == streamAt(r.BufByteReader, P0 + j))
+//@   ensures  [every-complete-frame-is-forwarded] P0 < streamAvail(r.BufByteReader) && specFrameComplete(r.BufByteReader, P0) ==> rerr == nil
+//@   canary   rerr != nil
+//@   modifies *r.BufByteReader, r.curReadSignatureTime, w.bw[:], ghost:log
